@@ -643,3 +643,8 @@ impl<'a> RequestExecutionParams<'a> {
         last_error.map(Result::Err)
     }
 }
+
+#[cfg(scylla_verif)]
+#[path = "execution_verif.rs"]
+#[allow(missing_docs, unreachable_pub, unnameable_types)]
+pub(crate) mod verif;
